@@ -161,3 +161,82 @@ Proof.
     + destruct l as [| x [| x2 l]]; destruct m as [| y [| y2 m]]; cbn in *; try discriminate; try exact I;
         rewrite ?map_length; cbn; try (split; reflexivity).
 Qed.
+
+(* ------------------------------------------------------------------ rank 2 *)
+Lemma ncols_map : forall (f : num -> num) r, ncols (map (map f) r) = ncols r.
+Proof. intros f [| r0 r]; cbn; [reflexivity | apply map_length]. Qed.
+
+Lemma ncols_map_row : forall (h : list num -> list num) r n,
+  (forall row, List.length (h row) = Nat.min n (List.length row)) -> n = ncols r -> r <> [] ->
+  ncols (map h r) = ncols r.
+Proof. intros h [| r0 r] n H E N; [congruence |]. cbn in *. rewrite H, E. apply Nat.min_id. Qed.
+
+Lemma rect_nonempty : forall r, rect r = true -> r <> [].
+Proof. intros [| r0 r] H; [discriminate | discriminate]. Qed.
+
+Definition bshape (sa sb : option (list nat)) : option (list nat) :=
+  match sa, sb with
+  | Some [], s | s, Some [] => s
+  | Some [n], Some [m] => if Nat.eqb n m then Some [n] else if Nat.eqb n 1 then Some [m] else Some [n]
+  | Some [r; c], Some [r'; c'] => if Nat.eqb r r' && Nat.eqb c c' then Some [r; c] else None
+  | Some [n], Some [r; c] => if Nat.eqb n c then Some [r; c] else None
+  | Some [r; c], Some [n] => if Nat.eqb n c then Some [r; c] else None
+  | _, _ => None
+  end.
+
+Definition rclass (r : res val) : nat := match r with Ok _ => 0 | Err => 1 | Unm => 2 end.
+Definition rshape (r : res val) : option (list nat) := match r with Ok v => shape v | _ => None end.
+Definition wf2 (v : val) : Prop := match v with VS _ _ | V1 _ => True | V2 r => rect r = true | _ => False end.
+
+(* scalars, vectors and matrices: whether an element-wise operation succeeds, is refused by NumPy, or is one of
+   the rank-2 broadcasts this model does not cover, and the shape of the result, depend on the operand SHAPES
+   only; where it succeeds the shape is bshape *)
+Lemma lift2_shape : forall f g a b, wf2 a -> wf2 b ->
+  rclass (np_lift2 f a b) = rclass (np_lift2 g a b) /\ rshape (np_lift2 f a b) = rshape (np_lift2 g a b) /\
+  (forall v, np_lift2 f a b = Ok v -> shape v = bshape (shape a) (shape b)).
+Proof.
+  intros f g a b Ha Hb.
+  destruct a as [na x | l | r | | | | |]; try (cbn in Ha; tauto); destruct b as [nb y | m | q | | | | |]; try (cbn in Hb; tauto).
+  - cbn. repeat split. intros v H. injection H as <-. reflexivity.
+  - cbn. rewrite !map_length. repeat split. intros v H. injection H as <-. cbn. rewrite map_length. reflexivity.
+  - cbn in Hb. cbn. rewrite Hb. cbn. rewrite !ncols_map, !map_length. repeat split.
+    intros v H. injection H as <-. cbn. rewrite ncols_map, map_length. reflexivity.
+  - cbn. rewrite !map_length. repeat split. intros v H. injection H as <-. cbn. rewrite map_length. destruct l; reflexivity.
+  - pose proof (lift2_shape_rank1 f g (V1 l) (V1 m) I I) as R. cbn in R |- *.
+    destruct (bc1 f l m) as [rf | |] eqn:Bf, (bc1 g l m) as [rg | |] eqn:Bg; cbn in R |- *; try tauto; try (exfalso; exact R).
+    + destruct R as [R1 R2]. repeat split; [exact R1 |]. intros v H. injection H as <-. exact R2.
+    + repeat split. discriminate.
+  - cbn in Hb. cbn. rewrite Hb. cbn [andb].
+    destruct (Nat.eqb (List.length l) (ncols q)) eqn:E; cbn; [| repeat split; discriminate].
+    apply Nat.eqb_eq in E.
+    assert (N := rect_nonempty _ Hb).
+    rewrite !(ncols_map_row _ q (List.length l)), !map_length; try assumption; try (intro row; apply map2_length).
+    repeat split. intros v H. injection H as <-. cbn.
+    rewrite (ncols_map_row _ q (List.length l)), map_length; try assumption; try (intro row; apply map2_length).
+    try rewrite E; try rewrite Nat.eqb_refl; reflexivity.
+  - cbn in Ha. cbn. rewrite Ha. cbn. rewrite !ncols_map, !map_length. repeat split.
+    intros v H. injection H as <-. cbn. rewrite ncols_map, map_length. destruct r as [| r0 r]; [discriminate | reflexivity].
+  - cbn in Ha. cbn. rewrite Ha. cbn [andb].
+    destruct (Nat.eqb (List.length m) (ncols r)) eqn:E; cbn; [| repeat split; discriminate].
+    apply Nat.eqb_eq in E.
+    assert (N := rect_nonempty _ Ha).
+    assert (HL : forall row, List.length (map2 f row m) = Nat.min (List.length m) (List.length row))
+      by (intro row; rewrite map2_length; apply Nat.min_comm).
+    assert (HG : forall row, List.length (map2 g row m) = Nat.min (List.length m) (List.length row))
+      by (intro row; rewrite map2_length; apply Nat.min_comm).
+    rewrite (ncols_map_row (fun row => map2 f row m) r (List.length m) HL E N),
+            (ncols_map_row (fun row => map2 g row m) r (List.length m) HG E N), !map_length.
+    repeat split. intros v H. injection H as <-. cbn.
+    rewrite (ncols_map_row (fun row => map2 f row m) r (List.length m) HL E N), map_length.
+    try rewrite E; try rewrite Nat.eqb_refl; reflexivity.
+  - cbn in Ha, Hb. cbn. rewrite Ha, Hb. cbn [andb].
+    destruct (Nat.eqb (List.length r) (List.length q)) eqn:E1; cbn [andb]; [| repeat split; try discriminate].
+    destruct (Nat.eqb (ncols r) (ncols q)) eqn:E2; cbn; [| repeat split; try discriminate].
+    apply Nat.eqb_eq in E1. apply Nat.eqb_eq in E2.
+    assert (NC : forall h : num -> num -> num, ncols (map2 (map2 h) r q) = ncols r).
+    { intro h. destruct r as [| r0 r]; [discriminate |]. destruct q as [| q0 q]; [discriminate |].
+      cbn in *. rewrite map2_length, E2. apply Nat.min_id. }
+    assert (NL : forall h : num -> num -> num, List.length (map2 (map2 h) r q) = List.length r).
+    { intro h. clear - E1. revert q E1. induction r as [| r0 r IH]; intros [| q0 q] E; cbn in *; try congruence. f_equal. apply IH. congruence. }
+    rewrite !NC, !NL. repeat split. intros v H. injection H as <-. cbn. rewrite NC, NL. try rewrite E1; try rewrite E2; try rewrite !Nat.eqb_refl; reflexivity.
+Qed.
